@@ -72,8 +72,10 @@ def piece_sdl(p):
         head = "%s%s %s" % (ext, "type" if k == "OBJECT" else "interface", p["name"])
         if p["ifaces"]:
             head += " implements " + " & ".join(p["ifaces"])
+        for d in p.get("tdirs") or []:
+            head += " @%s" % d
         if not p["fields"]:
-            return head if p["ext"] else head + " {\n}"
+            return head
         return head + " {\n  " + "\n  ".join(field_sdl(f) for f in p["fields"]) + "\n}"
     if k == "UNION":
         return "%sunion %s = %s" % (ext, p["name"], " | ".join(p["members"]))
